@@ -55,7 +55,7 @@ func lenStage(p *Program, t *T) *Stage {
 // DataflowParams selects one program of the dataflow family.
 type DataflowParams struct {
 	Kind   string // int arr tmap struct sarr smap cstruct aa
-	Src    string // lit input gen
+	Src    string // lit input gen mixnull mixref
 	Size   int    // 0 1 2 (3)
 	Proj   string // "" x v a.x sa.x ma.x
 	Map    string // "" top inner   (consumer mapped: at the outermost or innermost level)
@@ -171,13 +171,28 @@ func Dataflow(d DataflowParams) *Program {
 		srcE = Self("p")
 	case "gen":
 		srcE = Ref("GEN", genOut(d.Kind))
+	case "mixnull", "mixref":
+		// an array literal of structs whose first element is a pipeline
+		// input (a struct literal once resolved) and whose last element is
+		// null / a reference to a stage output
+		if d.Kind != "sarr" {
+			return nil
+		}
+		top.Ins = append(top.Ins, Param{T: srcT.Elem, Name: "p0"})
+		topCall.Binds = append(topCall.Binds, Bind{"p0", TLit(p, genValue(p, srcT.Elem, n, "inp"), srcT.Elem)})
+		if d.Src == "mixnull" {
+			srcE = ArrE(Self("p0"), Lit(Null()))
+		} else {
+			needGen = true
+			srcE = ArrE(Self("p0"), Ref("GEN", "one"))
+		}
 	default:
 		return nil
 	}
 	var path []string
 	if d.Proj != "" {
 		path = strings.Split(d.Proj, ".")
-		if d.Src == "lit" {
+		if d.Src == "lit" || strings.HasPrefix(d.Src, "mix") {
 			return nil // projections apply to references only
 		}
 		srcE = &Exp{K: srcE.K, Id: srcE.Id, Path: strings.Trim(srcE.Path+"."+d.Proj, ".")}
@@ -395,7 +410,7 @@ func Dataflow(d DataflowParams) *Program {
 // in which at most maxDev dimensions leave their base value are produced.
 func DataflowFamily(maxDev int) []DataflowParams {
 	kinds := []string{"arr", "int", "tmap", "struct", "sarr", "smap", "cstruct", "aa"}
-	srcs := []string{"gen", "lit", "input"}
+	srcs := []string{"gen", "lit", "input", "mixnull", "mixref"}
 	sizes := []int{2, 0, 1, 3}
 	projs := []string{"", "x", "v", "a.x", "sa.x", "ma.x", "sa.v", "ma.v"}
 	maps := []string{"", "top", "inner"}
